@@ -381,20 +381,43 @@ Definition any_cfg (imp : bool) (Ss : list ufilt) : @cfg comp :=
   {| c_subj := Some Ss; c_obj := None; c_should := false; c_only := false; c_not := true;
      c_exc := false; c_imp := Some imp; c_any := true |}.
 
+Lemma removed_unknown_false g (Ss : list ufilt) :
+  (forall f, In f Ss -> has_listed_ancestor ceqb Ss f = false) -> removed_unknown ceqb g Ss = false.
+Proof.
+  intros H. unfold removed_unknown. apply not_true_iff_false. intros E. apply existsb_exists in E.
+  destruct E as [f [Hf E]]. rewrite (H f Hf) in E. discriminate.
+Qed.
+
+(* the alias is the 'except' rule over the subjects without listed ancestors, provided every subject that the rewrite
+   removes is a module of the graph (fix D23: otherwise the outcome is an error, see alias_removed_unknown) *)
 Theorem alias_anything g imp Ss :
+  removed_unknown ceqb g Ss = false ->
   verdict ceqb rmatch g (any_cfg imp Ss) =
   verdict ceqb rmatch g (mk_ucfg ShouldNot imp true (drop_children ceqb Ss) (drop_children ceqb Ss)).
 Proof.
-  unfold verdict, assert_applies.
-  change (c_any (any_cfg imp Ss) && (c_should (any_cfg imp Ss) || c_only (any_cfg imp Ss))) with false.
-  change (c_any (mk_ucfg ShouldNot imp true (drop_children ceqb Ss) (drop_children ceqb Ss)) &&
-          (c_should (mk_ucfg ShouldNot imp true (drop_children ceqb Ss) (drop_children ceqb Ss)) ||
-           c_only (mk_ucfg ShouldNot imp true (drop_children ceqb Ss) (drop_children ceqb Ss)))) with false.
-  cbv iota.
-  change (convert_aliases ceqb (any_cfg imp Ss)) with (mk_ucfg ShouldNot imp true (drop_children ceqb Ss) (drop_children ceqb Ss)).
-  change (convert_aliases ceqb (mk_ucfg ShouldNot imp true (drop_children ceqb Ss) (drop_children ceqb Ss)))
-    with (mk_ucfg ShouldNot imp true (drop_children ceqb Ss) (drop_children ceqb Ss)).
-  destruct (negb (required_present _)); [reflexivity|]. destruct (negb (behavior_consistent _)); reflexivity.
+  intros Hr. unfold verdict, assert_applies.
+  set (c1 := mk_ucfg ShouldNot imp true (drop_children ceqb Ss) (drop_children ceqb Ss)).
+  change (c_any (any_cfg imp Ss)) with true. change (c_should (any_cfg imp Ss)) with false.
+  change (c_only (any_cfg imp Ss)) with false. change (c_any c1) with false.
+  change (convert_aliases ceqb (any_cfg imp Ss)) with c1.
+  change (convert_aliases ceqb c1) with c1.
+  change (opt_list (c_subj (any_cfg imp Ss))) with Ss.
+  cbn [andb orb]. rewrite Hr.
+  destruct (negb (required_present c1)); [reflexivity|]. destruct (negb (behavior_consistent c1)); reflexivity.
+Qed.
+
+Theorem alias_removed_unknown g imp Ss :
+  removed_unknown ceqb g Ss = true -> exists e, verdict ceqb rmatch g (any_cfg imp Ss) = Err e.
+Proof.
+  intros Hr. unfold verdict, assert_applies.
+  set (c1 := mk_ucfg ShouldNot imp true (drop_children ceqb Ss) (drop_children ceqb Ss)).
+  change (c_any (any_cfg imp Ss)) with true. change (c_should (any_cfg imp Ss)) with false.
+  change (c_only (any_cfg imp Ss)) with false.
+  change (convert_aliases ceqb (any_cfg imp Ss)) with c1.
+  change (opt_list (c_subj (any_cfg imp Ss))) with Ss.
+  cbn [andb orb]. rewrite Hr.
+  destruct (negb (required_present c1)); [eexists; reflexivity|].
+  destruct (negb (behavior_consistent c1)); eexists; reflexivity.
 Qed.
 
 Lemma drop_children_single (f : ufilt) : drop_children ceqb [f] = [f].
@@ -408,7 +431,14 @@ Qed.
 
 Theorem alias_anything_single g imp (f : ufilt) :
   V g (any_cfg imp [f]) = V g (mk_ucfg ShouldNot imp true [f] [f]).
-Proof. unfold V. rewrite alias_anything, drop_children_single. reflexivity. Qed.
+Proof.
+  unfold V. rewrite alias_anything, drop_children_single; [reflexivity|].
+  apply removed_unknown_false. intros f' [<-|[]]. unfold has_listed_ancestor. cbn [existsb].
+  destruct (uname f) as [n|] eqn:E; [|reflexivity].
+  assert (H : sprefixb ceqb n n = false).
+  { unfold sprefixb. rewrite (name_eqb_refl ceqb ceqb_spec). apply andb_false_r. }
+  rewrite H. reflexivity.
+Qed.
 
 
 (* ---- monotonicity in the import relation ---- *)
